@@ -14,6 +14,8 @@ var rtScenario = scenarioDef{"RT", 1, genRTConfig, RunRT}
 
 func plan(prop string) []scenarioDef {
 	switch prop {
+	case "C05":
+		return []scenarioDef{{"NET-liveness", 1, genLivenessConfig, RunNet}}
 	case "C12", "C13":
 		return []scenarioDef{netScenario, rtScenario}
 	case "C14", "C16":
